@@ -1032,3 +1032,9 @@ V("mincost-row-sliced-absolute-index", "break", ["C16"], H + "min_cost_dom_heuri
   edits=[{"old": "        cost = params[dom_idx][value]\n", "new": "        cost = params[dom_idx, shr_domain[MIN] : shr_domain[MAX] + 1][value]\n"}])
 V("mincost-row-sliced-relative-index", "neutral", ["C16", "C09", "C02"], H + "min_cost_dom_heuristic.py", None, None, "the same slice indexed by value - minimum",
   edits=[{"old": "        cost = params[dom_idx][value]\n", "new": "        cost = params[dom_idx, shr_domain[MIN] : shr_domain[MAX] + 1][value - shr_domain[MIN]]\n"}])
+# ---- R-GLOBAL-STATE argument-aliased (round 6, C15-x1)
+V("solver-config-asarray", "break", ["C15"], BS, "        self.dom_heuristic_params = np.array(dom_heuristic_params, dtype=np.int64)\n",
+  "        self.dom_heuristic_params = np.asarray(dom_heuristic_params, dtype=np.int64)\n", "the value-heuristic parameter table is the caller's own array when it is already int64", "BacktrackSolver.__init__",
+  expect_rule="R-GLOBAL-STATE")
+V("solver-config-array-copy-true", "neutral", ["C15", "C11", "C12"], BS, "        self.dom_heuristic_params = np.array(dom_heuristic_params, dtype=np.int64)\n",
+  "        self.dom_heuristic_params = np.array(dom_heuristic_params, dtype=np.int64, copy=True)\n", "explicit copy=True")
